@@ -6,6 +6,12 @@
     vote short) together with the verdict of Accepted, the transcription of the two validators.
     Binding A: the harness builds each candidate as a real, really signed voteproof and asks
     vp.IsValid(networkID) and isaac.IsValidVoteproofWithSuffrage(vp, suffrage).
+    "orbits" mode: for suffrages too large to enumerate (n=5,6,7 quick; up to 10 and t=80 thorough) TLC enumerates the
+    candidates up to a renaming of the nodes - one representative per profile (expelled k, votes for the claimed fact,
+    votes for the other fact, signer family, stage), placed so that the voteproofs for A and those for B share as few
+    signers as any placement can (OrbitRepresents / OrbitOverlapMinimal are checked by TLC in "agree" mode); they are
+    built and validated by the real code exactly like the others. These sizes are where ceil((n-k)t/100) < n-k and where
+    k<f, k=f, k>f are all inhabited, so the threshold arithmetic of the expel branch is observable.
  2. Agreement is evaluated on the table of REAL verdicts: every pair of really accepted candidates with
     different majority facts for which at most f nodes really signed both facts is a conflict. Pairs in which
     one side expels more than f nodes are the recorded design-level finding (key expel-voteproof;k>f);
@@ -96,10 +102,13 @@ def _tlapm(ctx):
 
 def run(ctx):
     quick = ctx.tier == "quick"
-    cand_cfgs = ["Agreement_cands_n3.cfg", "Agreement_cands_n4.cfg"]
+    cand_cfgs = ["Agreement_cands_n4.cfg", "Agreement_cands_n3.cfg",
+                 "Agreement_orbits_n5.cfg", "Agreement_orbits_n6.cfg", "Agreement_orbits_n7.cfg"]
     model_cfgs = [("Agreement_agree_n4.cfg", False), ("Agreement_beyond_n4.cfg", True), ("Agreement_closed_n6.cfg", False)]
     if not quick:
-        cand_cfgs += ["Agreement_cands_n5.cfg", "Agreement_cands_n4t80.cfg"]
+        cand_cfgs = ["Agreement_cands_n5.cfg", "Agreement_cands_n4t80.cfg"] + cand_cfgs
+        cand_cfgs += ["Agreement_orbits_n8.cfg", "Agreement_orbits_n9.cfg", "Agreement_orbits_n10.cfg",
+                      "Agreement_orbits_n6t80.cfg", "Agreement_orbits_n7t80.cfg", "Agreement_orbits_n10t80.cfg"]
         model_cfgs = [("Agreement_agree_n3.cfg", False), ("Agreement_agree_n4.cfg", False), ("Agreement_agree_n5.cfg", False),
                       ("Agreement_agree_n5t80.cfg", False), ("Agreement_beyond_n4.cfg", True), ("Agreement_beyond_n5.cfg", True),
                       ("Agreement_closed_n6.cfg", False), ("Agreement_closed_n7.cfg", False), ("Agreement_closedbeyond_n7.cfg", True)]
@@ -108,11 +117,15 @@ def run(ctx):
                 "every expelled set, 5 expel-signer families, plain/expel/stuck, claims A/B/DRAW, INIT and ACCEPT, 10 structural "
                 "mutations on the accepted or one-vote-short ones; each built as a real signed voteproof and validated by the real code; "
                 "non-trivial = at least one sign fact; distinct by the whole candidate. Pairs: every two really accepted candidates "
-                "with different majorities and at most f common equivocators")
+                "with different majorities and at most f common equivocators. Larger suffrages (n=5,6,7 quick; 8,9,10 and t=80 "
+                "thorough) up to a renaming of the nodes: every profile (k expelled, a votes for the claimed fact, b for the other, "
+                "family, stage) in the placement with the fewest common signers between an A- and a B-voteproof")
 
     def dump(cfg):
         sub = _sub(ctx, "dump-" + cfg[:-4])
         out = sub.tlc_dump_steps("Agreement", cfg, timeout=3000, workers=8 if quick else "auto")
+        for st in out[1]:
+            st["table"] = cfg[len("Agreement_"):-4]
         return out, sub
 
     def model(item):
@@ -121,7 +134,7 @@ def run(ctx):
         out = sub.tlc("Agreement", cfg, timeout=3000, workers=4, allow_violation=allow)
         return out, sub
 
-    with ThreadPoolExecutor(max_workers=3 if quick else 4) as ex:
+    with ThreadPoolExecutor(max_workers=4) as ex:
         fd = [ex.submit(dump, c) for c in cand_cfgs]
         fm = [ex.submit(model, m) for m in model_cfgs]
         dumps = [f.result() for f in fd]
@@ -209,6 +222,9 @@ def run(ctx):
         ctx.violation(key, "n=%d t=%.1f f=%d: both accepted by the real validators: [%s] and [%s]; nodes that signed both facts: %s "
                       "(%d such pairs in this class)" % (n, t10 / 10, f, _desc(ent["c1"]), _desc(ent["c2"]), eqn, ent["count"]),
                       {"n": n, "t10": t10, "c1": ent["c1"], "c2": ent["c2"], "equivocators": eqn})
+    ctx.extra["candidates_by_table"] = {}
+    for c in cands:
+        ctx.extra["candidates_by_table"][c["table"]] = ctx.extra["candidates_by_table"].get(c["table"], 0) + 1
     ctx.extra["real_accepted_majority_candidates"] = sum(len(v) for v in groups.values())
     ctx.extra["pairs_examined(after merging equal signer sets)"] = pairs
     ctx.extra["conflicting_real_pairs_by_class"] = {"%s n=%d t10=%d" % k: v["count"] for k, v in conflicts.items()}
@@ -241,5 +257,7 @@ def run(ctx):
         "done elsewhere - Ballotbox - and is not part of these two validators)",
         "one family of expel signers per candidate (all others / the live nodes / exactly the demanded number / one short / only the target)",
         "equivocators are counted among ballot sign facts only; expel operations may be signed by any suffrage node (statement)",
-        "n<=5 explicit against the real code, n<=7 in the cardinality form (model only), all n for plain voteproofs by the TLAPS proof (thorough)",
+        "every candidate against the real code for n<=4 (quick) / n<=5 (thorough); n=5..7 (quick) / 5..10 (thorough) against the real code up to "
+        "a renaming of the nodes (the validators are assumed not to depend on which node is which beyond what n<=4/5 shows; node addresses "
+        "are random per run); n<=7 in the cardinality form (model only); all n for plain voteproofs by the TLAPS proof (thorough)",
     ]
